@@ -14,6 +14,18 @@ func init() {
 	VerifHarnesses["H_C18_indent"] = H_C18_indent
 }
 
+// c18Alphabet: with ALPHA=1 the source bytes are restricted to the structural
+// alphabet [ ] { } " , : 1 space backslash (longer texts stay tractable).
+func c18Alphabet(t *verifrt.T, src []byte) {
+	if t.Param("ALPHA") != 1 {
+		return
+	}
+	for i := range src {
+		c := src[i]
+		t.Assume(verifrt.Or(c == '[', c == ']', c == '{', c == '}', c == '"', c == ',', c == ':', c == '1', c == ' ', c == '\\'))
+	}
+}
+
 func c18Verdict(t *verifrt.T, src []byte, accepted bool) (strict bool) {
 	strict = verifref.ValidJSON(src, verifref.Relax{})
 	num := verifref.ValidJSON(src, verifref.Relax{NumberGo: true})
@@ -38,6 +50,7 @@ func H_C18_compact(t *verifrt.T) {
 	esc := t.Choice("escape", 2) == 1
 	pre := t.Choice("pre", t.Param("PRE")+1)
 	src := t.Bytes("src", n)
+	c18Alphabet(t, src)
 	orig := make([]byte, n)
 	copy(orig, src)
 	before := t.Bytes("dst", pre)
@@ -76,6 +89,7 @@ func H_C18_indent(t *verifrt.T) {
 	pi := c18Prefixes[t.Choice("prefix-indent", t.Param("PI"))]
 	pre := t.Choice("pre", t.Param("PRE")+1)
 	src := t.Bytes("src", n)
+	c18Alphabet(t, src)
 	orig := make([]byte, n)
 	copy(orig, src)
 	before := t.Bytes("dst", pre)
